@@ -40,7 +40,7 @@ NONPLAIN = ["decimal", "fraction", "complex", "tuple", "tuple_empty", "set", "fr
 _scalars = st.one_of(
     st.none(), st.booleans(), specs.ints, specs.finite_floats,
     st.sampled_from([float("inf"), float("-inf")]),
-    specs.texts, specs.bytes_, specs.uuid4s, specs.datetimes, specs.dates,
+    specs.texts, specs.bytes_, specs.uuid4s, specs.datetimes, specs.plain_dates,
 )
 _keys = st.one_of(st.sampled_from(["a", "b", "id", "", "é"]), st.integers(2, 5), st.none(),
                   st.just(("t", 2)), st.just(b"k"))
